@@ -51,6 +51,26 @@ Strategies (all JSON round-trippable, forward/backward maps implemented)
                                      building blocks of the packs "reverse" and "quotient", whose specifications
                                      need Complement / Quotient rules (found by RuleDBForest only)
 
+    Additions used by single modules (not part of PACKS / ALL_STRATEGIES, so the shared families are unchanged):
+    stat_vanishes(cls, stat)         semantic test: the statistic is 0 on every word of the class (automaton search)
+    ExpansionDropVanishing           the union; a child drops every statistic that really vanishes on it (a sibling
+                                     may have it non-zero at the same size, e.g. nb on Av('a', ['ab']) vs Av('b', ['ab']))
+    SplitPrefix(pieces, rest_at, local_names)
+                                     the prefix factorisation with the front cut into `pieces` atoms and the non-atom
+                                     factor listed at position `rest_at` (a factor of positive minimum size and no
+                                     maximum size in non-last position); local_names=True: every factor tracks only
+                                     the statistics that do not vanish on it, atoms under their duplicate names
+    RenameStats                      single child, two-way equivalence: the same statistics under their duplicate
+                                     names (na -> na2, nb -> nb2)
+    OneWaySwap                       SwapSymmetry declared one-way (is_two_way / is_reversible False): applied to a
+                                     class and to its image it closes a directed cycle of one-way unary rules
+    StepRemoveRedundantPatterns      RemoveRedundantPatterns with can_be_equivalent() False (a two-way single-child
+                                     rule that is not an equivalence rule)
+    VerifiedThroughLonger            verification strategy whose rule has a child (a dependency): class(p) is verified
+                                     through class(xp) = {x} x class(p)
+    PrependStatFactory               as PrependRuleFactory, the longer class also tracking the statistic of the
+                                     prepended letter when it vanishes on the class (SplitPrefix(local_names=True))
+
 Packs / starts / search
     PACKS: {name: () -> fresh StrategyPack};  pack_applicable(name, start) -> bool
         example (= example.py, library AtomStrategy, statistics-free starts only), stat, noinitial, sym, inferral,
@@ -140,6 +160,15 @@ __all__ = [
     "spec_check",
     "swap_word",
     "silence",
+    "stat_vanishes",
+    "ExpansionDropVanishing",
+    "SplitPrefix",
+    "RenameStats",
+    "OneWaySwap",
+    "StepRemoveRedundantPatterns",
+    "VerifiedThroughLonger",
+    "PrependStatFactory",
+    "DUP_NAME",
 ]
 
 STAT_LETTER = {"na": "a", "nb": "b", "na2": "a", "nb2": "b"}
@@ -1106,6 +1135,347 @@ class PrependRuleFactory(_Factory):
             children = front.decomposition_function(longer)
             if children is not None and children[1] == comb_class:
                 yield front(longer)
+
+
+# --------------------------------------------------------------------------------------------------------------
+# richer building blocks (used by single modules; deliberately not part of PACKS / ALL_STRATEGIES)
+# --------------------------------------------------------------------------------------------------------------
+
+
+@lru_cache(maxsize=None)
+def _letter_can_follow(
+    prefix: str, patterns: Tuple[str, ...], alphabet: Tuple[str, ...], letter: str
+) -> bool:
+    """Is there a word prefix.u.letter avoiding the patterns (u over the alphabet)?  The shortest such u has no
+    `letter` and visits no state (= last m-1 letters) twice, so a search over states decides it.  No library code."""
+    if any(p in prefix for p in patterns):
+        return False
+    m = max((len(p) for p in patterns), default=1)
+
+    def tail(word: str) -> str:
+        return word[-(m - 1):] if m > 1 else ""
+
+    start = tail(prefix)
+    seen = {start}
+    todo = [start]
+    while todo:
+        state = todo.pop()
+        for x in alphabet:
+            new = state + x
+            if any(new.endswith(p) for p in patterns):
+                continue
+            if x == letter:
+                return True
+            t = tail(new)
+            if t not in seen:
+                seen.add(t)
+                todo.append(t)
+    return False
+
+
+def stat_vanishes(cls: Av, stat: str) -> bool:
+    """True iff the statistic is 0 on every word of the class (decided semantically, unlike stat_is_zero which only
+    looks at the alphabet and at one-letter patterns)."""
+    letter = STAT_LETTER[stat]
+    if letter in cls.prefix:
+        return cls.is_empty()
+    if cls.just_prefix or letter not in cls.alphabet:
+        return True
+    return not _letter_can_follow(
+        str(cls.prefix), tuple(map(str, cls.patterns)), cls.alphabet, letter
+    )
+
+
+class ExpansionDropVanishing(ExpansionDropStat):
+    """The union of ExpansionStrategy; a child drops every statistic that really vanishes on it (stat_vanishes).  A
+    sibling can have that statistic non-zero on words of the same size: in Av('', ['ab'], 'ab', ('nb',)) the child
+    with prefix a = {a^i} drops nb, the child with prefix b keeps it."""
+
+    def _child_params(self, parent, child):
+        kept = tuple(s for s in parent.stats if not stat_vanishes(child, s))
+        return kept, {s: s for s in kept}
+
+    def formal_step(self) -> str:
+        return "Append a letter; children forget statistics that vanish on all their words"
+
+
+class SplitPrefix(CartesianProductStrategy[Av, Word]):
+    """prefix = front + rest as in RemoveFrontOfPrefix (no occurrence of a pattern uses a letter of the front).  The
+    front is cut into `pieces` atoms (the first pieces - 1 of one letter each, the last one takes what is left; the
+    strategy applies only when the front has at least `pieces` letters) and the non-atom factor class(rest) is the
+    child number `rest_at` (0 = first, any value >= pieces = last).  Whatever the order of the children, the word is
+    atom_1 ... atom_pieces . w with w in class(rest).
+
+    local_names=False: every factor tracks all the statistics of the parent (identity maps, additive).
+    local_names=True : a factor tracks only the statistics that do not vanish on it (the parent statistic is then not
+                       mapped to it), and an atom calls its statistics by their duplicate names (na <-> na2, ...)."""
+
+    def __init__(
+        self,
+        ignore_parent: bool = True,
+        inferrable: bool = False,
+        possibly_empty: bool = False,
+        workable: bool = True,
+        pieces: int = 1,
+        rest_at: int = 0,
+        local_names: bool = False,
+    ):
+        super().__init__(
+            ignore_parent=ignore_parent,
+            inferrable=inferrable,
+            possibly_empty=possibly_empty,
+            workable=workable,
+        )
+        if pieces < 1 or rest_at < 0:
+            raise ValueError("pieces >= 1 and rest_at >= 0")
+        self.pieces = int(pieces)
+        self.rest_at = int(rest_at)
+        self.local_names = bool(local_names)
+
+    def _word_order(self, comb_class: Av) -> Optional[List[Av]]:
+        """The factors in the order in which they make up the word (statistics of the parent)."""
+        if comb_class.just_prefix or comb_class.is_empty():
+            return None
+        safe = RemoveFrontOfPrefix.index_safe_to_remove_up_to(comb_class)
+        if safe <= 0 or safe < self.pieces:
+            return None
+        cuts = list(range(self.pieces)) + [safe]
+        parts = [
+            comb_class.derive(prefix=comb_class.prefix[cuts[i] : cuts[i + 1]], just_prefix=True)
+            for i in range(self.pieces)
+        ]
+        parts.append(comb_class.derive(prefix=comb_class.prefix[safe:]))
+        return parts
+
+    def _positions(self) -> List[int]:
+        """positions[i] = index in word order of the i-th child."""
+        r = min(self.rest_at, self.pieces)
+        atoms = list(range(self.pieces))
+        return atoms[:r] + [self.pieces] + atoms[r:]
+
+    def _factor_params(self, parent: Av, factor: Av) -> Tuple[Tuple[str, ...], Dict[str, str]]:
+        if not self.local_names:
+            return parent.stats, {s: s for s in parent.stats}
+        kept = tuple(s for s in parent.stats if not stat_vanishes(factor, s))
+        if factor.just_prefix:
+            return tuple(DUP_NAME[s] for s in kept), {s: DUP_NAME[s] for s in kept}
+        return kept, {s: s for s in kept}
+
+    def decomposition_function(self, comb_class: Av) -> Optional[Tuple[Av, ...]]:
+        parts = self._word_order(comb_class)
+        if parts is None:
+            return None
+        return tuple(
+            parts[i].derive(stats=self._factor_params(comb_class, parts[i])[0])
+            for i in self._positions()
+        )
+
+    def extra_parameters(
+        self, comb_class: Av, children: Optional[Tuple[Av, ...]] = None
+    ) -> Tuple[Dict[str, str], ...]:
+        parts = self._word_order(comb_class)
+        if parts is None:
+            raise StrategyDoesNotApply("Strategy does not apply")
+        return tuple(
+            dict(self._factor_params(comb_class, parts[i])[1]) for i in self._positions()
+        )
+
+    def formal_step(self) -> str:
+        return (
+            f"split the redundant front of the prefix into {self.pieces} atom(s), the remaining class is child "
+            f"{min(self.rest_at, self.pieces)}" + (" (local statistic names)" if self.local_names else "")
+        )
+
+    def backward_map(
+        self,
+        comb_class: Av,
+        objs: Tuple[Optional[Word], ...],
+        children: Optional[Tuple[Av, ...]] = None,
+    ) -> Iterator[Word]:
+        positions = self._positions()
+        assert len(objs) == len(positions) and all(o is not None for o in objs)
+        in_word_order = sorted(zip(positions, objs))
+        yield Word("".join(o for _, o in in_word_order))
+
+    def forward_map(
+        self,
+        comb_class: Av,
+        obj: Word,
+        children: Optional[Tuple[Av, ...]] = None,
+    ) -> Tuple[Word, ...]:
+        parts = self._word_order(comb_class)
+        assert parts is not None
+        pieces, at = [], 0
+        for part in parts[:-1]:
+            pieces.append(Word(obj[at : at + len(part.prefix)]))
+            at += len(part.prefix)
+        pieces.append(Word(obj[at:]))
+        return tuple(pieces[i] for i in self._positions())
+
+    def to_jsonable(self) -> dict:
+        d = super().to_jsonable()
+        d["pieces"] = self.pieces
+        d["rest_at"] = self.rest_at
+        d["local_names"] = self.local_names
+        return d
+
+    @classmethod
+    def from_dict(cls, d: dict) -> "SplitPrefix":
+        return cls(**d)
+
+    def __repr__(self) -> str:
+        return f"SplitPrefix(pieces={self.pieces}, rest_at={self.rest_at}, local_names={self.local_names})"
+
+
+class RenameStats(_SingleChild):
+    """Statistic names are local to a class: the child is the same set of words tracking the same statistics under
+    their duplicate names (na -> na2, nb -> nb2).  A two-way single-child equivalence whose parameter map is not the
+    identity on names.  Applies to classes tracking base names only (so it cannot be applied twice in a row)."""
+
+    def decomposition_function(self, comb_class: Av) -> Optional[Tuple[Av, ...]]:
+        if comb_class.is_empty() or not comb_class.stats:
+            return None
+        if any(s in BASE_OF for s in comb_class.stats):
+            return None
+        return (comb_class.derive(stats=tuple(DUP_NAME[s] for s in comb_class.stats)),)
+
+    def extra_parameters(self, comb_class, children=None):
+        return ({s: DUP_NAME[s] for s in comb_class.stats},)
+
+    def formal_step(self) -> str:
+        return "call the statistics by their duplicate names"
+
+
+class OneWaySwap(SwapSymmetry):
+    """The letter swap declared one-way: a genuine single-child equivalence whose author declines the reverse
+    direction (is_two_way / is_reversible False), as real users do for strategies whose reverse they did not
+    implement.  Applied to a class and then to its image it closes a directed cycle of one-way unary rules."""
+
+    def is_two_way(self, comb_class) -> bool:
+        return False
+
+    def is_reversible(self, comb_class) -> bool:
+        return False
+
+    def formal_step(self) -> str:
+        return "swap the letters a and b (one way)"
+
+
+class StepRemoveRedundantPatterns(RemoveRedundantPatterns):
+    """RemoveRedundantPatterns declared `can_be_equivalent() == False`: a two-way single-child rule that is not an
+    equivalence rule (it stays a node of its own in a specification)."""
+
+    def can_be_equivalent(self) -> bool:
+        return False
+
+    def formal_step(self) -> str:
+        return "remove patterns implied by other patterns (a step of its own)"
+
+
+class VerifiedThroughLonger(VerificationStrategy[Av, Word]):
+    """Verifies a non-atom, non-empty class C = class(p) with a one-letter prefix p for which some other letter x
+    gives the valid factorisation class(xp) = {x} x C.  The rule has the child class(xp): the documented way of
+    marking that the verification depends on another class (its generating function is F_child / atom).  Terms,
+    objects and samples are obtained by listing the words of C."""
+
+    def _dependency(self, comb_class: Av) -> Optional[Av]:
+        if (
+            comb_class.just_prefix
+            or comb_class.is_empty()
+            or len(comb_class.prefix) != 1
+        ):
+            return None
+        front = RemoveFrontOfPrefix()
+        for letter in comb_class.alphabet:
+            if letter == comb_class.prefix:
+                continue
+            longer = comb_class.derive(prefix=letter + comb_class.prefix)
+            children = front.decomposition_function(longer)
+            if children is not None and children[1] == comb_class:
+                return longer
+        return None
+
+    def verified(self, comb_class: Av) -> bool:
+        return self._dependency(comb_class) is not None
+
+    def decomposition_function(self, comb_class: Av) -> Optional[Tuple[Av, ...]]:
+        dep = self._dependency(comb_class)
+        return None if dep is None else (dep,)
+
+    def get_terms(self, comb_class: Av, n: int) -> Counter:
+        if not self.verified(comb_class):
+            raise StrategyDoesNotApply("The combinatorial class is not verified")
+        return comb_class.get_terms(n)
+
+    def get_objects(self, comb_class: Av, n: int):
+        if not self.verified(comb_class):
+            raise StrategyDoesNotApply("The combinatorial class is not verified")
+        return comb_class.get_objects(n)
+
+    def random_sample_object_of_size(self, comb_class: Av, n: int, **parameters: int):
+        objs = list(comb_class.objects_of_size(n, **parameters))
+        return _random.choice(objs)
+
+    def get_genf(self, comb_class, funcs=None):
+        import sympy  # pylint: disable=import-outside-toplevel
+
+        dep = self._dependency(comb_class)
+        if dep is None:
+            raise StrategyDoesNotApply("The combinatorial class is not verified")
+        if funcs is None or dep not in funcs:
+            raise NotImplementedError("the generating function needs the function of the dependency")
+        atom = sympy.var("x")
+        for s in comb_class.stats:
+            if STAT_LETTER[s] == dep.prefix[0]:
+                atom *= sympy.var(s)
+        return funcs[dep] / atom
+
+    def formal_step(self) -> str:
+        return "verified through the class with one more letter in front"
+
+    @classmethod
+    def from_dict(cls, d: dict) -> "VerifiedThroughLonger":
+        return cls(**d)
+
+    def __repr__(self) -> str:
+        return "VerifiedThroughLonger()"
+
+
+class PrependStatFactory(_Factory):
+    """For a class C with a one-letter prefix p and every other letter x such that class(xp) = {x} x C is valid:
+    yields that product (SplitPrefix(local_names=True), atom first) for the longer class tracking the statistics of C
+    and, whenever a statistic of the letter x vanishes on C and is not tracked by C, that statistic as well (the
+    atom then carries it under its duplicate name and C none of it).  C is never a parent: it can only be specified by
+    the quotient rule, whose counted child C has fewer statistics than the parent and the sibling."""
+
+    def __call__(self, comb_class: Av):
+        if (
+            comb_class.just_prefix
+            or comb_class.is_empty()
+            or len(comb_class.prefix) != 1
+        ):
+            return
+        split = SplitPrefix(local_names=True, rest_at=1)
+        for letter in comb_class.alphabet:
+            if letter == comb_class.prefix:
+                continue
+            extra = tuple(
+                s
+                for s in ("na", "nb")
+                if STAT_LETTER[s] == letter
+                and s not in comb_class.stats
+                and DUP_NAME[s] not in comb_class.stats
+                and stat_vanishes(comb_class, s)
+            )
+            longer = comb_class.derive(
+                prefix=letter + comb_class.prefix, stats=comb_class.stats + extra
+            )
+            children = split.decomposition_function(longer)
+            if children is not None and children[1] == comb_class:
+                # (the expansion of the class with prefix x makes the longer class known to the searcher as a
+                # child, so that the verification strategies of the pack are tried on it)
+                yield ExpansionStrategy()(longer.derive(prefix=letter))
+                yield split(longer)
 
 
 # --------------------------------------------------------------------------------------------------------------
